@@ -183,8 +183,35 @@ def cwn(w, rng, v):
         cwn(w, mx, n - 1); w.align(); w.put(v, 8 * n)
 
 
+class Adv:
+    """adversarial length determinant: the site-th length / count written while this is installed (adv.cur) claims
+    more than what follows.  mode 'frag': k fragment-marker octets (0xC1..0xC4) then the true count; 'max': 16383 /
+    the constraint's maximum; 'b127': 127.  site < 0 only counts the sites."""
+    def __init__(self, site=-1, mode='frag', k=1, marker=0xC4):
+        self.site, self.mode, self.k, self.marker, self.n, self.hit = site, mode, k, marker, 0, False
+        self.kinds = []      # per site: 'count' (element count of a SEQUENCE OF) or 'len', + '*' when it is a general length determinant
+
+    def here(self, general=False):
+        self.kinds.append(getattr(adv, 'kind', 'len') + ('*' if general else ''))
+        self.n += 1
+        if self.n - 1 == self.site:
+            self.hit = True
+            return True
+        return False
+
+
+import threading
+adv = threading.local()
+
+
 def lendet(w, n):
     w.align()
+    a = getattr(adv, 'cur', None)
+    if a is not None and a.here(True):
+        if a.mode == 'frag': w.bytes_([a.marker] * a.k + [n if n < 128 else 0])
+        elif a.mode == 'max': w.bytes_([0xBF, 0xFF])
+        else: w.bytes_([0x7F])
+        return
     if n < 128: w.put(n, 8)
     elif n < 16384: w.put(0x8000 | n, 16)
     else: raise Frag()
@@ -211,7 +238,10 @@ def enc_int(w, lb, ub, ext, v):
 
 def enc_len(w, lb, ub, n):
     if ub is not None and ub < 65536:
-        if lb != ub: cwn(w, ub - lb + 1, n - lb)
+        if lb != ub:
+            a = getattr(adv, 'cur', None)
+            if a is not None and a.here(): n = ub           # claim the maximum
+            cwn(w, ub - lb + 1, n - lb)
     else: lendet(w, n)
 
 
@@ -278,9 +308,16 @@ class Ref:
             inroot = n >= lb and (ub is None or n <= ub)
             if p['sizeExt']:
                 w.put(0 if inroot else 1, 1)
-                if not inroot: lendet(w, n)
+                if not inroot:
+                    adv.kind = 'count'
+                    try: lendet(w, n)
+                    finally: adv.kind = 'len'
             elif not inroot: raise Refuse('seqof size')
-            if inroot: enc_len(w, lb, ub, n)
+            adv.kind = 'count'
+            try:
+                if inroot: enc_len(w, lb, ub, n)
+            finally:
+                adv.kind = 'len'
             ep = dict(p); ep['sizeExt'] = False; ep['sizeLB'] = None; ep['sizeUB'] = None
             for x in v: self.enc(w, t['elem'], ep, x)
         elif k == 'struct':
